@@ -56,6 +56,13 @@ def add_columns(df, rng, where):
         "Station": np.array(["st-%d" % (i % 7) for i in range(n)], dtype=object),
         "Logged": pd.date_range("1970-01-01", periods=n, freq="h"),
         "Wind": np.round(rng.uniform(0, 15, n), 2),
+        # unrelated columns whose names merely resemble the required ones
+        "ReferenceET_method": np.full(n, 2.0),
+        "Precipitation_QC": np.array([i % 3 for i in range(n)], dtype=float),
+        "MinTemp_raw": np.round(rng.uniform(-40, 40, n), 1),
+        "MaxTemperatureF": np.round(rng.uniform(30, 110, n), 1),
+        "Date_logged": pd.date_range("2031-01-01", periods=n, freq="D"),
+        "date": np.array(["n/a"] * n, dtype=object),
     }
     # unrelated columns may well be incomplete: missing values on days inside the window
     holes = rng.choice(n, size=min(n, 6), replace=False)
@@ -64,7 +71,7 @@ def add_columns(df, rng, where):
     lg = extras["Logged"].to_series().reset_index(drop=True)
     lg.iloc[holes[3:]] = pd.NaT
     extras["Logged"] = lg.to_numpy()
-    names = list(rng.choice(list(extras), size=int(rng.integers(1, 4)), replace=False))
+    names = list(rng.choice(list(extras), size=int(rng.integers(1, 5)), replace=False))
     cols = list(df.columns)
     for k, name in enumerate(names):
         pos = {"before": 0, "after": len(cols), "between": int(rng.integers(1, len(cols)))}[where]
@@ -105,6 +112,20 @@ def extra_rows(df, rng):
     return pd.concat([lead[COLS], df[COLS], trail[COLS]], ignore_index=True)
 
 
+def gap_rows(df, rng):
+    """Leading and trailing fragments that are NOT contiguous with the window (joined files with
+    holes, an earlier year without its 29 February ...)."""
+    d0, d1 = df["Date"].iloc[0], df["Date"].iloc[-1]
+    a = int(rng.integers(20, 200))
+    hole = int(rng.integers(1, 90))
+    lead_dates = pd.date_range(d0 - pd.Timedelta(days=a + hole), d0 - pd.Timedelta(days=hole + 1))
+    lead_dates = lead_dates[[i for i in range(len(lead_dates)) if i % 17 != 5]]      # and a few single-day holes
+    lead = pd.DataFrame({"MinTemp": 45.0, "MaxTemp": 58.0, "Precipitation": 222.0, "ReferenceET": 17.0, "Date": lead_dates})
+    trail_dates = pd.date_range(d1 + pd.Timedelta(days=hole + 1), d1 + pd.Timedelta(days=hole + a))
+    trail = pd.DataFrame({"MinTemp": -25.0, "MaxTemp": -15.0, "Precipitation": 0.0, "ReferenceET": 0.1, "Date": trail_dates})
+    return pd.concat([lead[COLS], df[COLS], trail[COLS]], ignore_index=True)
+
+
 def run_case(case):
     spec = case["spec"]
     acc = base.Acc(spec, limit=10)
@@ -137,6 +158,7 @@ def run_case(case):
     for kind in ("reversed", "strings", "datetime", "nonunique", "offset", "unpadded", "shuffled"):
         plans.append(("index", f"index replaced ({kind})", lambda df, kind=kind: reindex(df, rng, kind)))
     plans.append(("extra_rows", "extra leading and trailing rows", lambda df: extra_rows(df, rng)))
+    plans.append(("extra_rows", "extra leading and trailing rows with holes outside the window", lambda df: gap_rows(df, rng)))
     for _ in range(3):
         p = PERMS[int(rng.integers(0, len(PERMS)))]
         kind = gen.pick(rng, ["reversed", "strings", "datetime", "offset", "unpadded", "shuffled"])
